@@ -32,6 +32,15 @@ def add_to(run):
             run.functions["amaranth_soc." + fv.qualname] = f"proved ({fv.paths} paths, {len(fv.obs)} obligations): accepts iff the parameters are valid, stores them as given, member table follows them"
             run.require(f"{fv.qualname}::accepts-only-valid-parameters", f"{fv.qualname}::no-other-member")
             obs += fv.obs
+        # create() -> interface constructor -> signature constructor: every link hands the parameters on unchanged, so (with __eq__ above)
+        # create().signature == the original, for all parameter values
+        for f in sig_init.ROUND_TRIP:
+            fv = f()
+            run.functions["amaranth_soc." + fv.qualname] = f"proved ({fv.paths} paths, {len(fv.obs)} obligations): hands the signature parameters on unchanged"
+            obs += fv.obs
+        run.require("wishbone.bus.Signature.create::parameter-features-is-the-signature's-own", "wishbone.bus.Interface.__init__::signature-parameter-granularity-as-given",
+                    "csr.bus.Element.Signature.create::parameter-access-is-the-signature's-own", "csr.reg.FieldPort.Signature.create::the-signature-itself-is-handed-over",
+                    "event.Source.__init__::signature-parameter-trigger-as-given", "csr.bus.Interface.__init__::that-signature-handed-to-the-interface-base")
         run.require("wishbone.bus.Signature.__init__::features-iterated-exactly-once")
         run.assumptions.append("signature constructors: In/Out, wiring.Signature.__init__, Feature(), Element.Access(), FieldPort.Access(), Source.Trigger(), Shape.cast() and unsigned() are recording stubs (unsigned(w) stands for its width); a feature "
                                "iterable is abstract (which features it yields is an uninterpreted predicate, whether all convert a free Boolean)")
